@@ -602,6 +602,11 @@ v("C08", "ext-reset-helper-wrong-depth", "break", ["C08.delegate"], [("field_enc
 v("C03", "ext-finish-helper-returns-alias", "break", ["C03.alias"], [("plugin_layout.go", "\tbuf.WriteByte('\\n')\n\treturn bytes.Clone(buf.Bytes())\n}", "\tbuf.WriteByte('\\n')\n\treturn buf.Bytes()\n}")], base="keep-ext/C03-r4a.patch")
 v("C01", "ext-ctor-ranges-overlap", "break", ["C01.split"], [("plugin_logger.go", "newRollingFileAppenderRef(f, layout, f.FileName+\".wf\", normalMaxLevel, f.Level.MaxLevel))", "newRollingFileAppenderRef(f, layout, f.FileName+\".wf\", f.Level.MinLevel, f.Level.MaxLevel))")], base="keep-ext/C01-r4c.patch")
 v("C16", "ext-ctor-nil-layout", "break", ["C16.iface-fields"], [("plugin_logger.go", "\t\tnewRollingFileAppenderRef(f, layout, f.FileName, f.Level.MinLevel, normalMaxLevel),", "\t\tnewRollingFileAppenderRef(f, f.Layout, f.FileName, f.Level.MinLevel, normalMaxLevel),")], base="keep-ext/C01-r4c.patch")
+# breaks on top of round-8 refactorings (the generalised roles must still carry the rules and the evaluators)
+v("C10", "ext-r8-lazy-before-gate", "break", ["C10"], [("log.go", "\tif l, ok := tag.serving(level); ok {\n\t\tpublish(ctx, l, level, tag.tag, 2, fn())\n\t}", "\tfields := fn()\n\tif l, ok := tag.serving(level); ok {\n\t\tpublish(ctx, l, level, tag.tag, 2, fields)\n\t}")], base="keep-ext/C10-r8k.patch")
+v("C04", "ext-r8-queue-discard-uncounted", "break", ["C04"], [("plugin_logger.go", "\tcase BufferFullPolicyDiscard:\n\t\tdrop(v)\n", "\tcase BufferFullPolicyDiscard:\n")], base="keep-ext/C06-r8k.patch")
+v("C06", "ext-r8-queue-offer-blocks", "break", ["C06"], [("plugin_logger.go", "\tselect {\n\tcase q.ch <- v:\n\t\treturn true\n\tdefault:\n\t\treturn false\n\t}", "\tq.ch <- v\n\treturn true")], base="keep-ext/C06-r8k.patch")
+v("C02", "ext-r8-prefixes-consult-bare-wildcard", "break", ["C02"], [("log_tag.go", "\t\t\tif i <= 0 {\n\t\t\t\treturn\n\t\t\t}\n\t\t\ttag = strings.TrimSuffix(tag[:i], \"_\")", "\t\t\tif i < 0 {\n\t\t\t\treturn\n\t\t\t}\n\t\t\ttag = strings.TrimSuffix(tag[:i], \"_\")")], base="keep-ext/C02-r8k.patch")
 v("C20", "ext-named-ctor-wrong-flag", "break", ["C20.async-opt-in"], [("plugin_logger.go", "\tif f.AsyncWrite {\n\t\treturn initRollingFileLogger(f, newRollingAsyncLogger)", "\tif f.Separate {\n\t\treturn initRollingFileLogger(f, newRollingAsyncLogger)")], base="keep-ext/C20-r4c.patch")
 
 
